@@ -270,7 +270,12 @@ def step (d : Drv) (cmd : List Sexp) : Drv × String :=
     | some t, some req, some o =>
       let res : Except Err Res :=
         match req with
-        | .slice a b c => t.getItem d.store a b c
+        | .slice a b c =>
+          -- `relation[a:b:c]`; with a preferred engine (and no step): `Slice(a, b).apply(relation, options)`
+          if o.pref.isSome && c.isNone then do
+            let op ← UOp.mkSlice (a.getD 0) b
+            applyOp d.store defaultFuel (.u op) t o
+          else t.getItem d.store a b c
         | _ => do
           let op ← req.toUOp
           applyOp d.store defaultFuel (.u op) t o
